@@ -449,9 +449,9 @@ const c07Block = 50
 
 func c07Seeded(tier string) int {
 	if tier == "thorough" {
-		return 20000
+		return 40000
 	}
-	return 1500
+	return 4000
 }
 
 func (p *c07) NumCases(tier string) int {
